@@ -73,7 +73,7 @@ def box_mesh(rng):
 
 
 def gen_mesh(rng):
-    kind = rng.choice(["box", "soup", "fan", "sliver", "coplanar"])
+    kind = rng.choice(["box", "soup", "fan", "sliver", "coplanar", "coplanar"])
     if kind == "box":
         verts, faces = box_mesh(rng)
     elif kind == "soup":
@@ -109,6 +109,15 @@ def gen_mesh(rng):
     qs.append([a + rng.uniform(-0.2, 0.2) for a in onf])
     qs.append(list(verts[f[0]]))
     qs.append([(a + b) / 2 + rng.uniform(-0.3, 0.3) for a, b in zip(verts[f[0]], verts[f[1]])])
+    if kind == "coplanar":
+        # level with the flat open grid, beyond its rim and beyond a corner: the closest point is on the border and the offset
+        # lies in the plane of the faces
+        t = rng.uniform(0.2, 2.0)
+        qs += [rng.choice([[3.0 + t, rng.uniform(0, 3), 0.0], [-t, rng.uniform(0, 3), 0.0], [rng.uniform(0, 3), 3.0 + t, 0.0]]), [3.0 + t, 3.0 + rng.uniform(0.1, 1), 0.0]]
+    elif kind == "box":
+        # beside an edge of the box, in the plane of one of the two faces meeting there
+        xs = [v[0] for v in verts]; ys = [v[1] for v in verts]; zs = [v[2] for v in verts]
+        qs.append([max(xs) + rng.uniform(0.2, 1.5), rng.uniform(min(ys), max(ys)), max(zs)])
     d_guess = rng.choice([0.05, 0.3, 1.0, 5.0])
     return {"k": "c02.mesh", "verts": verts, "faces": faces, "solid": False, "qs": qs, "max_dist": d_guess,
             "max_angle": rng.choice([0.1, 0.5, 1.0, math.pi / 2, 0.0]), "kind": kind,
@@ -251,6 +260,14 @@ def oracle(c, r):
             if min(tri_dist(p, *t) for t in tris) > 1e-9 * qs:
                 yield ("mesh-off-surface", what + ": reported point %r is not on the mesh" % (p,))
                 break
+            dv = o.get("dev")
+            if dv is not None:
+                if dv.get("panic"):
+                    yield ("mesh-deviation", what + ": measure_point_deviation panicked")
+                elif abs(abs(dv["value"]) - best) > 1e-6 + 1e-9 * qs:
+                    yield ("mesh-deviation", what + ": the point-mode deviation reports %r, the distance to the mesh is %r" % (dv["value"], best))
+                elif best > 2e-6 and math.dist([dv["a"][i] + dv["dir"][i] * dv["value"] for i in range(3)], q) > 1e-8 * qs:
+                    yield ("mesh-deviation", what + ": reference %r + direction %r * value %r does not give back the query" % (dv["a"], dv["dir"], dv["value"]))
             sp = o["surf"]
             if math.dist(sp["p"], p) > 1e-12 * qs:
                 yield ("mesh-surf-point", what + ": surf_closest_to point %r vs point_closest_to %r" % (sp["p"], p))
